@@ -381,8 +381,12 @@ def main():
         violations=len(ctx.violations),
     )
     ev['coverage'].update(ctx.extra_cov)
-    os.makedirs(os.path.join(VERIF, 'evidence'), exist_ok=True)
-    with open(os.path.join(VERIF, 'evidence', a.pid + '.json'), 'w') as f:
+    # evidence/ describes /repo only: a run against a scratch copy (--repo elsewhere) writes its record under build/
+    ev_dir = os.path.join(VERIF, 'evidence')
+    if os.path.realpath(a.repo) != os.path.realpath(os.environ.get('VERIF_REPO', '/repo')):
+        ev_dir = os.path.join(VERIF, 'build', 'evidence_scratch')
+    os.makedirs(ev_dir, exist_ok=True)
+    with open(os.path.join(ev_dir, a.pid + '.json'), 'w') as f:
         json.dump(ev, f, indent=1)
 
     for ln in ctx.lines:
